@@ -68,6 +68,7 @@ def gen_cases(tier, seed):
                         if m == 'hanzi':
                             kw['mode'] = 'hanzi'
                         cases.append(common.mk(gen.content_for_bits(m, k), tag='per-version', **kw))
+    cases += common.eci_boundary_cases(rng, tier)
     if tier == 'thorough':
         # all 65,536 two-byte strings with defaults
         for hi in range(256):
